@@ -38,6 +38,40 @@ SEEDS = {
  "S-C18-3": ("C18", "same change as S-C12-1 / S-C15-2 (replace_op files the node under the new class name), found independently for C18",
              "replace_op with a gate of another class, then a count / depth metric: CNOT replaced by CZ still counted, an "
              "Identity replaced by a Hadamard removed by the metric's remove_identity"),
+ "S-C01-4": ("C01", "StabilizerCompiler applies the conditional Z of a ClassicalCZ to the CONTROL instead of the target (pure-state branch)",
+             "a ClassicalCZ on the stabilizer backend without noise simulation, control measured as 1, target not a Z eigenstate "
+             "(H e0; H p0; ClassicalCZ(e0 -> p0) forced 1)"),
+ "S-C02-4": ("C02", "_graph_to_stabilizer_pure orders the qubits by SORTED node label", "a graph-form target whose node insertion order "
+             "is not its label order: the solver returns a circuit for the permuted state and still reports score 0"),
+ "S-C11-4": ("C11", "run_circuit dispatches P / P_dag through a module-level dict and swaps its entries IN PLACE for reverse runs",
+             "an odd number of earlier reverse runs in the process and an inverse circuit containing a P gate: every second "
+             "clifford_from_stabilizer / CliffordTableau(StabilizerTableau) builds another state"),
+ "S-C12-4": ("C12", "Register.__deepcopy__ rebuilds the table from a shallow dict copy: the copy shares the 'e' / 'p' / 'c' lists",
+             "circuit.copy() (or deepcopy), then a register-adding edit on ONE of the two objects: the other one's register counts "
+             "change although it received no edit"),
+ "S-C13-4": ("C13", "MonteCarloNoise._noisy_gates takes a shallow copy of each operation and writes the sampled noise into its noise list "
+             "in place", "a Monte-Carlo noise map with an entry for a two-qubit gate: sampling noisy copies puts the sampled noise on "
+             "the CNOTs of the noise-free original"),
+ "S-C14-4": ("C14", "CircuitBase.to_openqasm caches the script; add / insert / replace clear the cache, remove_op (subclass) does not",
+             "export, then remove_op, then export again on the same object (or a copy taken after the first export): the old text"),
+ "S-C15-4": ("C15", "PhaseDagger is made a subclass of Phase (to reuse its constructor)", "direct / GED comparison (isinstance(op1, "
+             "type(op2))) of a circuit with an S-dagger against one with an S in the same place, S-dagger circuit first: equal, "
+             "asymmetric; CircuitStorage refuses the S circuit"),
+ "S-C16-4": ("C16", "local_comp_graph flips the block of the NEIGHBOUR LABELS in an adjacency matrix that is indexed by insertion position",
+             "an input graph with labels 0..n-1 inserted in non-ascending order (edge-list construction, relabel_nodes): the first "
+             "complementation is not one, every explorer leaves the orbit"),
+ "S-C17-4": ("C17", "inner_product builds its scratch tableau once before the loop over the X-free rows (hoisted 'loop invariant')",
+             ">= 4 qubits, orthogonal states, the negative-sign generator not the FIRST X-free row of the reduced second state: "
+             "Infidelity with a stabilizer target returns 0.75 instead of 1 (192 of 4096 four-vertex graph pairs)"),
+ "S-C18-4": ("C18", "CircuitMaxEmitDepth takes max(calculate_reg_depth('e')) - the critical path - instead of the gate count per emitter",
+             "a path through another register into an emitter's wire that is longer than the emitter's own gate sequence (two "
+             "unevenly loaded emitters); benchmark and single-emitter circuits agree"),
+ "S-C19-4": ("C19", "the measurement_determinism setter stores `setting or 'probabilistic'`: the documented value 0 becomes probabilistic",
+             "a solver whose compiler is set to forced outcome 0 and hall-of-fame circuits whose score depends on an emitter "
+             "measurement: stored scores are lucky draws (HofHonest); also caught by C01 (forcing rule)"),
+ "S-C20-4": ("C20", "CircuitDAG.sequence() caches the sorted operation list under a stamp (node counter, #nodes, #edges)",
+             "a long-lived circuit that has been sequenced, then gets its wrapper exchanged in place with replace_op, then is "
+             "compiled again: both backends still run the old wrapper"),
  "S-C03-4": ("C03", "rref returns early when the rows merely look echelon: leftmost sites non-decreasing and NEIGHBOURING rows on one site "
              "starting with different Paulis", ">= 3 generators starting on the same site with alternating Paulis (GHZ as ZZI, XXX, "
              "ZIZ): height over-counted, gauge dependent, one emitter too many; graph-form inputs never"),
@@ -204,7 +238,14 @@ SEEDS = {
              "differs from its library representative by a phase with negative real part: simplify_local_clifford raises"),
 }
 STRENGTHENED = {
- "S-C06-1": "grid extended by the endpoint p = 1", "S-C04-4": "solver-output circuits of all connected 4-vertex and random 5-6 vertex graphs judged for emission shape in C04 itself",
+ "S-C06-1": "grid extended by the endpoint p = 1", "S-C02-4": "graph-form targets with a shuffled node insertion order (position view = the target)",
+ "S-C12-4": "a copy of the circuit is set aside and looked at again after later edits of the original (CopyIndependent)",
+ "S-C14-4": "the circuit is exported once BEFORE it is edited; edits include removals",
+ "S-C15-4": "near-miss variant 'related gate' (Phase <-> PhaseDagger, SigmaX <-> SigmaY, plain or inside a wrapper)",
+ "S-C16-4": "explorers and local_comp_graph on graphs with a shuffled insertion order (C16 and C09)",
+ "S-C19-4": "a run with the compiler forced to outcome 0 on a target that cannot be reached (imperfect hall of fame)",
+ "S-C20-4": "one long-lived circuit per register type: read, wrapper exchanged with replace_op, compiled, repeatedly; replace edits in cz.edit_circuit",
+ "S-C04-4": "solver-output circuits of all connected 4-vertex and random 5-6 vertex graphs judged for emission shape in C04 itself",
  "S-C05-4": "half of the comparisons use the long-lived tableau objects themselves (no copies)",
  "S-C07-4": "clones made with the array constructor from a source's arrays; the source must stay what it was (SourceUnchanged)",
  "S-C01-3": "most compiles go through one long-lived compiler object per backend (engine/circuits.py), used by every compile leg",
